@@ -25,6 +25,9 @@ typedef struct istream_xfrm_t {
 	sqfs_istream_t *wrapped;
 	xfrm_stream_t *xfrm;
 
+	/* input of a compressed stream that has not ended yet was consumed */
+	bool in_member;
+
 	size_t buffer_offset;
 	size_t buffer_used;
 	sqfs_u8 uncompressed[BUFSZ];
@@ -47,6 +50,7 @@ static int precache(sqfs_istream_t *base)
 
 	for (;;) {
 		sqfs_u32 in_off = 0, out_off = xfrm->buffer_used;
+		const sqfs_u32 out_before = out_off;
 		int mode = XFRM_STREAM_FLUSH_NONE;
 		const sqfs_u8 *ptr;
 		size_t avail;
@@ -69,6 +73,21 @@ static int precache(sqfs_istream_t *base)
 
 		xfrm->buffer_used = out_off;
 		xfrm->wrapped->advance_buffer(xfrm->wrapped, in_off);
+
+		if (ret == XFRM_STREAM_END) {
+			xfrm->in_member = false;
+		} else if (in_off > 0) {
+			xfrm->in_member = true;
+		}
+
+		/* The input is used up. If we are still inside of a compressed
+		   stream and it does not yield anything anymore, it was cut
+		   short. */
+		if (mode == XFRM_STREAM_FLUSH_FULL && ret != XFRM_STREAM_END &&
+		    xfrm->in_member && out_before < BUFSZ &&
+		    out_off == out_before) {
+			return SQFS_ERROR_CORRUPTED;
+		}
 
 		if (ret == XFRM_STREAM_BUFFER_FULL || out_off >= BUFSZ)
 			break;
